@@ -19,7 +19,7 @@ import collections.abc
 import types
 import typing
 from ast import literal_eval
-from inspect import Parameter, getmembers, isfunction, signature
+from inspect import Parameter, getmembers, isfunction, ismethod, signature
 from shutil import get_terminal_size
 from typing import (
     Any,
@@ -298,7 +298,8 @@ class ControlParser(ArgumentParser):
         for name, member in getmembers(cls):
             if name in omit_members or (name.startswith("_") and public_only):
                 continue
-            if isfunction(member):
+            if isfunction(member) or ismethod(member):
+                # (`getmembers` of a class yields its class methods as bound methods.)
                 subparser = self.add_function_command(member, **common_kwargs)
             elif isinstance(member, property):
                 subparser = self.add_property_command(
